@@ -44,15 +44,18 @@ class World:
         ops.append({"op": "specfile", "api": "pass", "chunks": [65536, 1000], "pseed": 9, "password_hex": b"file-pw".hex(),
                     "tag": "pw", "out": os.path.join(self.dir, "pw.ktl")})
         # further plaintext sizes for successful runs: empty, and exactly one full chunk
-        for sz, chunks in (("empty", [0]), ("exact", [65536])):
-            ops.append({"op": "specfile", "api": "key", "chunks": chunks, "pseed": 11, "s_priv_hex": self.keys["alice"]["sk_hex"],
+        # ... and a text whose first line ends early and whose second line runs on for two chunks without a newline (what a
+        # line-buffered stdout treats differently from binary data)
+        for sz, chunks in (("empty", [0]), ("exact", [65536]), ("longline", [65536, 30000])):
+            fill = "longline" if sz == "longline" else "prng"
+            ops.append({"op": "specfile", "api": "key", "chunks": chunks, "pseed": 11, "fill": fill, "s_priv_hex": self.keys["alice"]["sk_hex"],
                         "r_pub_hex": self.keys["bob"]["pk_hex"], "tag": "k" + sz, "out": os.path.join(self.dir, "k%s.ktl" % sz)})
-            ops.append({"op": "specfile", "api": "pass", "chunks": chunks, "pseed": 11, "password_hex": b"file-pw".hex(),
+            ops.append({"op": "specfile", "api": "pass", "chunks": chunks, "pseed": 11, "fill": fill, "password_hex": b"file-pw".hex(),
                         "tag": "p" + sz, "out": os.path.join(self.dir, "p%s.ktl" % sz)})
         cli.driver_ops(pid, tpl, ops, seed, "world")
         rd = lambda n: open(os.path.join(self.dir, n), "rb").read()
         self.sizes = {sz: {"plain": rd("k%s.ktl.plain" % sz), "ckey": rd("k%s.ktl" % sz), "cpass": rd("p%s.ktl" % sz)}
-                      for sz in ("empty", "exact")}
+                      for sz in ("empty", "exact", "longline")}
         assert len(self.sizes["empty"]["plain"]) == 0 and len(self.sizes["exact"]["plain"]) == 65536
         self.P2 = open(os.path.join(self.dir, "tobob.ktl.plain"), "rb").read()
         self.ckey = open(os.path.join(self.dir, "tobob.ktl"), "rb").read()
@@ -159,7 +162,8 @@ def run_config(w, c, idx, psize=None):
         expected_full = None
         # successful runs rotate over plaintext sizes: two chunks, empty, exactly one full chunk
         if psize is None:
-            psize = ("two", "empty", "exact")[idx % 3] if (cause == "none" and cmd != "key_generate") else "two"
+            # (mixed so that every size class meets every wiring, whatever the order of the configurations)
+            psize = ("two", "empty", "exact", "longline")[(idx + idx // 4 + idx // 16 + idx // 64) % 4] if (cause == "none" and cmd != "key_generate") else "two"
         plain = w.P2 if psize == "two" else w.sizes[psize]["plain"]
         if cmd == "decrypt":
             data = w.ckey_carol if cause == "wrong_recipient" else (w.cpass if cause == "other_mode_file" else w.ckey)
@@ -250,6 +254,15 @@ def run_config(w, c, idx, psize=None):
                     krtext = (head + b"# " + b"p" * pad + b"\n" + krtext.encode()[cut + 2:]).decode()
                     assert krtext.encode()[1048576:1048581] == b"[Key]"
                 krtext = krtext.rstrip("\n") + "\n\n[Key]\nName = bob\nPublicKey = %s\n" % w.other_pub_enc(9)
+            elif cause == "malformed_keyring" and c.get("krbad"):
+                # an AMBIGUOUS keyring: a name bound to two keys (a key rotated with `key generate -o` under its old name),
+                # or one key under two names; which entry a look-up would give is undefined, so the tool must refuse it
+                k9 = w.keys
+                other = "[Key]\nName = %s\nPublicKey = %s\n" % ("alice" if c["krbad"].startswith("dup_name") else "alias of alice",
+                                                              w.other_pub_enc(7) if c["krbad"].startswith("dup_name") else k9["alice"]["pub_enc"])
+                if c["krbad"] == "dup_name_bob":
+                    other = "[Key]\nName = bob\nPublicKey = %s\n" % k9["carol"]["pub_enc"].replace(k9["carol"]["pub_enc"], w.other_pub_enc(8))
+                krtext = (other + "\n" + krtext) if c["krbad"].endswith("_first") else (krtext.rstrip("\n") + "\n\n" + other)
             elif cause == "malformed_keyring":
                 krtext = "[Key]\nName = x\nthis is not a keyring\n"
             kr_path = sb.path("keyring.txt")
@@ -482,7 +495,7 @@ def c12(pid, tier, seed, selftest=False):
     rep.extra["exit0"] = sum(1 for e in evs if e["exit"] == 0)
     rep.exhaustive = thorough
     # the same clauses with the password typed on a terminal instead of taken from the environment
-    tty_extension(rep, pid, tpl, seed, thorough, ["C12_", "C16_", "C09_"])
+    tty_extension(rep, pid, tpl, seed, thorough, ["C12_", "C16_", "C09_"], negatives=(thorough or selftest))
     return rep.finish()
 
 
@@ -588,7 +601,9 @@ def exec_gen_history(w, hid, initial, n, vias=None):
             genv = {"KESTREL_PASSWORD": pw}
             if (k + int(hid[1:])) % 2:
                 genv["KESTREL_NEW_PASSWORD"] = "stale new password"      # only change-pass reads it
-            r = cli.kestrel(["key", "generate", "-o", f, "--env-pass"], env=genv, stdin=(name + "\n").encode())
+            # how the line with the name ends: Enter, CR LF, or end of input right after the last character (printf '%s' name |)
+            term = ["\n", "", "\r\n", "\n"][(k + 2 * int(hid[1:])) % 4]
+            r = cli.kestrel(["key", "generate", "-o", f, "--env-pass"], env=genv, stdin=(name + term).encode())
             after = sb.read("keyring.txt") or b""
             names.append(name)
             pws.append(pw)
@@ -872,6 +887,10 @@ def c16(pid, tier, seed, selftest=False):
     rep.sample({"history": hists[0], "events": all_evs[0]})
     validate_events(rep, pid, "life", evs, ["C16_"])
     rep.extra["steps_checked"] = len(evs)
+    # typed at a terminal: the key is re-locked under the password that was CONFIRMED (typed twice identically) - entries of
+    # which one is only a prefix of the other (a character missed, Enter alone) are different passwords
+    tty_extension(rep, pid, tpl, seed, thorough, ["C16_"], channels=("tty", "stdin"),
+                  select=lambda s_: s_["cmd"] == "change_pass" and (len(s_["script"]) <= 3 or tty_interesting(s_)))
     return rep.finish()
 
 
@@ -1032,9 +1051,13 @@ def c09(pid, tier, seed, selftest=False):
     with cli.Sandbox(pid, "argv") as sb:
         sb.write("x", b"not a kestrel file")
 
+        def concrete(v):
+            # the model's word for "not valid UTF-8" becomes such bytes
+            return [b"caf\xe9.ktl" if a == "<NONUTF8>" else a for a in v]
+
         def one(iv):
             i, v = iv
-            r = cli.kestrel(v, env={"KESTREL_PASSWORD": "pw9", "KESTREL_NEW_PASSWORD": "pw10"} if len(v) == 4 and v[0] == "key" and len(v[2]) > 100 else {},
+            r = cli.kestrel(concrete(v), env={"KESTREL_PASSWORD": "pw9", "KESTREL_NEW_PASSWORD": "pw10"} if len(v) == 4 and v[0] == "key" and len(v[2]) > 100 else {},
                             stdin=b"", timeout=30, cwd=sb.dir)
             return {"ev": "argv", "id": "a%d" % i, "argv": v, "streams": "normal", "exit": r.rc, "errline": r.has_error_line, "timed_out": r.timed_out,
                     "stderr": r.err_text[-200:]}
@@ -1049,7 +1072,7 @@ def c09(pid, tier, seed, selftest=False):
 
         def one_fault(ivs):
             i, v, streams = ivs
-            r = cli.kestrel(v, env={"KESTREL_PASSWORD": "pw9", "KESTREL_NEW_PASSWORD": "pw10"}, stdin=b"streamkey\n", timeout=30, cwd=sb.dir,
+            r = cli.kestrel(concrete(v), env={"KESTREL_PASSWORD": "pw9", "KESTREL_NEW_PASSWORD": "pw10"}, stdin=b"streamkey\n", timeout=30, cwd=sb.dir,
                             stdout_path="/dev/full" if streams == "stdout_full" else None, stderr_path="/dev/full" if streams == "stderr_full" else None)
             return {"ev": "argv", "id": "s%d.%s" % (i, streams), "argv": v, "streams": streams, "exit": r.rc, "errline": r.has_error_line,
                     "timed_out": r.timed_out, "stderr": r.err_text[-200:]}
@@ -1129,7 +1152,16 @@ def validate_events_argv(rep, pid, evs):
 
 import ptyrun
 
-TTY_WORDS = {"good": "the-right-pw", "x": "wrong x", "y": "wröng-y"}
+TTY_WORDS = {"good": "the-right-pw", "x": "wrong x", "y": "wröng-y", "xp": "wrong x2", "e": ""}
+
+
+def tty_interesting(s):
+    """Scripts beyond length 2 that every tier runs: two adjacent entries of which one is a prefix of the other (a character
+    missed or added, Enter alone), and unlock prompts answered wrongly two or three times before the right password."""
+    sc = s["script"]
+    pref = any((a, b) in (("x", "xp"), ("xp", "x")) or ((a == "e") != (b == "e")) for a, b in zip(sc, sc[1:]))
+    many = s["cmd"] in ("decrypt", "encrypt") and len(sc) >= 3 and sc[-1] == "good"
+    return pref or many
 
 
 def run_tty_scenario(w, idx, sc, channel="tty"):
@@ -1188,8 +1220,10 @@ def run_tty_scenario(w, idx, sc, channel="tty"):
             out = "full" if (g["dec"] == "ok" and g["plain_ok"] and g["sender_ok"] and g["spec_ok"]) else "other"
         else:
             out = "other"
+        printed_key = False
         if cmd == "change_pass":
             out = "untouched"
+            printed_key = re.search(rb"PrivateKey = \S+", transcript) is not None
             if exp["res"] == "ok":
                 m = re.search(rb"PrivateKey = (\S+)", transcript)
                 pw_ok = False
@@ -1201,17 +1235,29 @@ def run_tty_scenario(w, idx, sc, channel="tty"):
                     out = "full" if pw_ok else "other"
         text = transcript.decode("utf-8", "replace")
         return {"ev": "tty", "id": "tty%d%s" % (idx, {"tty": "", "stdin": "s", "redirected": "r"}[channel]), "channel": channel, "cmd": cmd, "script": script, "exp": exp, "rc": rc, "answered": answered,
-                "timed_out": rc == -999, "out": out, "pw_ok": pw_ok, "errline": "Error:" in text,
+                "timed_out": rc == -999, "out": out, "pw_ok": pw_ok, "printed_key": printed_key, "errline": re.search(r"(?i)\b(error|fatal)\b", text) is not None,
                 "transcript_tail": text[-200:]}
 
 
-def tty_extension(rep, pid, tpl, seed, thorough, prefixes, only_failures=False, channels=None):
-    res = run_tlc(pid, "prompt-mc", "Prompt", "SPECIFICATION Spec\nCONSTANT MaxLines = %d\nINVARIANT MatchesContract\nINVARIANT Emit\nCHECK_DEADLOCK FALSE\n"
-                  % (5 if thorough else 4), workers=1, timeout=300)
+def prompt_cfg(maxlines, variant="none", emit=True):
+    return ("SPECIFICATION Spec\nCONSTANTS\n  MaxLines = %d\n  PVariant = \"%s\"\nINVARIANT MatchesContract\n%sCHECK_DEADLOCK FALSE\n"
+            % (maxlines, variant, "INVARIANT Emit\n" if emit else ""))
+
+
+def tty_extension(rep, pid, tpl, seed, thorough, prefixes, only_failures=False, channels=None, select=None, negatives=False):
+    res = run_tlc(pid, "prompt-mc", "Prompt", prompt_cfg(5 if thorough else 4), workers=2, timeout=600)
     rep.add_model("prompt-mc", res, "interactive password paths (ask / confirm loop / unlock loop) against the declarative outcome; emits typed scripts")
     if res.violated:
         raise ToolError("Prompt model violates %s (model bug)" % res.violated)
+    if negatives:
+        for v in ("ConfirmByPrefix", "UnlockAttemptsCapped"):
+            r = run_tlc(pid, "neg-" + v, "Prompt", prompt_cfg(4, v, emit=False), workers=2, timeout=300)
+            rep.add_model("neg-" + v, r, "deviation %s must break MatchesContract" % v)
+            if r.violated != "MatchesContract":
+                raise ToolError("negative variant %s: got %s" % (v, r.violated))
     scs = res.replays
+    if select is not None:
+        scs = [s for s in scs if select(s)]
     try:
         import pty
         pid_, fd_ = pty.fork()
@@ -1225,7 +1271,7 @@ def tty_extension(rep, pid, tpl, seed, thorough, prefixes, only_failures=False, 
     if only_failures:
         scs = [s for s in scs if s["exp"]["res"] != "ok"]
     if not thorough:
-        scs = [s for i, s in enumerate(scs) if len(s["script"]) <= 2 or i % 6 == 0]
+        scs = [s for i, s in enumerate(scs) if len(s["script"]) <= 2 or i % 24 == 0 or (tty_interesting(s) and (len(s["script"]) <= 3 or i % 3 == 0))]
     w = World(pid, tpl, seed)
     # every script on the controlling terminal; those that do not end in Ctrl-C (without a controlling terminal there
     # is no interrupt character) also with a terminal on stdin only: the prompt_password_stdin fall-back
@@ -1310,6 +1356,8 @@ def strace_decrypt(w, name, data, expect_plain, klass, auth_n, mode="key", chunk
                 ok = got is not None and got[off:off + req] == expect_plain[off:off + req] and len(got) >= off + max(ret, 0)
                 evs.append({"ev": "write", "req": req, "ret": ret if ret >= 0 else -1, "off": off, "ok": bool(ok), "heap": 0, "cons": cons, "acc": acc,
                             "authc": authc, "due": due})
+                # a write system call hands the bytes to the file: nothing stays behind in a buffer of the process
+                evs.append({"ev": "flush", "req": 0, "ret": 0, "heap": 0, "cons": cons, "acc": acc, "authc": authc, "due": due})
         res = "ok" if p.returncode == 0 else ("err_auth" if p.returncode == 1 else "panic")
         boundary = acc in [0] + [sum(plens[:i + 1]) for i in range(len(plens))]
         begin = {"ev": "begin", "op": "dec", "api": mode, "id": name, "cs": 65536, "H": hdr, "flen": len(data), "plen": len(expect_plain),
